@@ -153,6 +153,10 @@ func (i *openidHandler) HandleAccessTokenRequest(ctx context.Context, preAuthori
 		}
 	}
 	if flow.IssuerID != i.issuerDID.String() {
+		// A failing request could indicate a stolen pre-authorized code: it is single-use, so burn it once presented.
+		if err := i.store.DeleteReference(ctx, preAuthCodeRefType, preAuthorizedCode); err != nil {
+			log.Logger().WithError(err).Error("Failed to delete pre-authorized code")
+		}
 		return "", "", openid4vci.Error{
 			Err:        errors.New("pre-authorized code not issued by this issuer"),
 			Code:       openid4vci.InvalidGrant,
